@@ -22,6 +22,10 @@ from mc.battery import Exc, call
 MOD = 'checks.c13_blob'
 # a non-initial state: B rewritten, committed, and the rewrite undone
 UNDONE = [['bwrite', 'B'], ['commit'], ['undo', 0]]
+SAVED = [['bwrite', 'B'], ['savepoint']]
+SAVED_P = [['modp'], ['savepoint']]
+SP_KINDS = ['bwrite', 'bappend', 'consume', 'linkN', 'savepoint', 'rollback',
+            'commit', 'abort']
 KINDS = ['bwrite', 'bappend', 'consume', 'linkN', 'modp', 'savepoint',
          'rollback', 'commit', 'abort', 'rival', 'commit-vote-fail', 'undo',
          'undo-abort', 'pack']
@@ -651,7 +655,12 @@ def run(rep, tier, seed, workers):
         '(our commit then conflicts after B was stored), commit with another '
         'participant failing after the vote, DB.undo of the 1st / 2nd newest '
         'transaction, pack to now} on FileStorage+blob_dir, from the initial '
-        'state and from a state with an undone rewrite; after every step: '
+        'state and from a state with an undone rewrite; the blob and '
+        'savepoint operations with two live savepoints from a state where a '
+        'savepoint holds the rewritten blob / only the plain object; the '
+        'BlobStorage wrapper over FileStorage and MappingStorage one step '
+        'shallower (incl. an undo that is started and aborted); after every '
+        'step: '
         'the set, bytes and read-only mode of committed .blob files, '
         'leftovers anywhere under the blob directory once no transaction is '
         'in progress, reads through the main and an observer connection; '
@@ -660,13 +669,24 @@ def run(rep, tier, seed, workers):
     plan = [dict(prop='C13', kind='Fb', d=depth),
             dict(prop='C13', kind='Fb', d=depth - 1, start=UNDONE),
             dict(prop='C13', kind='BF', d=depth - 1),
-            dict(prop='C13', kind='BM', d=depth - 1)]
+            dict(prop='C13', kind='BM', d=depth - 1),
+            # nested savepoints: two live handles, from a state where the
+            # blob is already held by a savepoint
+            dict(prop='C13', kind='Fb', d=depth, start=SAVED,
+                 max_handles=2, kinds=SP_KINDS),
+            # ... and from one where the savepoint does not hold the blob
+            dict(prop='C13', kind='Fb', d=depth, start=SAVED_P,
+                 max_handles=2, kinds=SP_KINDS)]
     for cfg in plan:
         d = cfg.pop('d')
         fps = seqx.explore(rep, MOD, cfg, d, workers, seed, split=2)
         states += len(fps)
-        rep.bounds['%s depth%s' % (cfg['kind'], ' after rewrite+commit+undo'
-                                   if cfg.get('start') else '')] = d
+        rep.bounds['%s depth%s' % (cfg['kind'], (
+            ' after %s+savepoint, 2 handles' % (
+                'rewrite' if cfg['start'] == SAVED else 'modify p')
+            if cfg.get('max_handles')
+            else ' after rewrite+commit+undo') if cfg.get('start')
+            else '')] = d
     rep.cov['states'] = max(states, 1)
     rep.assumptions = [
         'a blob that belongs to no database (never added, or un-added) may '
